@@ -107,6 +107,10 @@ def make_replay(which):
         on a grid of points (replay/c07_replay.cc)"""
         import subprocess
         from vp import native
+        if which == 'CheckVars':     # variables: the real SolutionChecker on a one-variable model stand-in (replay/c07_vars_replay.cc)
+            drv = native.build_driver('c07_vars_replay.cc', 'c07_vars_replay', native.MP_SOURCES, ['-O0'])[0]
+            p = subprocess.run([drv], capture_output=True, text=True, timeout=300)
+            return p.returncode == 10, (p.stdout + p.stderr)[-2500:], drv
         if _drv[0] is None:
             _drv[0] = native.build_driver('c07_replay.cc', 'c07_replay', native.MP_SOURCES, ['-O0'])[0]
         p = subprocess.run([_drv[0], which], capture_output=True, text=True, timeout=300)
@@ -190,6 +194,7 @@ def _harnesses(tier, seed):
                    loops={0: '__CPROVER_assigns(i, result) __CPROVER_loop_invariant(i >= 1 && i <= g_nargs && result >= 0.0 && result <= (double)(g_nargs - i)) __CPROVER_decreases(i)'},
                    nloops=1, pre='__CPROVER_assume(g_nargs >= 1);'))
     hs.append(h_check())
+    hs.append(h_checkvars())
     hs += [h_indicator(), h_functional_violation(), h_algebraic_violation()]
     for k in (-2, -1, 0, 1, 2):
         hs += h_algconrhs(k)
@@ -309,6 +314,79 @@ def h_algconrhs(kind):
                 label='mp::AlgConRhs<kind>::is_valid', inst='kind=%d' % kind),
              'void harness(void) { vp_one = 1; rhs_ = nondet_double(); __CPROVER_assume(rhs_ == rhs_); int w = nondet_int(); if (w == 0) AlgConRhs_lb(); else if (w == 1) AlgConRhs_ub(); else AlgConRhs_is_valid(nondet_double()); VP_REACH("normal return"); }\n']
     return [Harness('C07.AlgConRhs.%s.%s' % ({-2: 'LT', -1: 'LE', 0: 'EQ', 1: 'GE', 2: 'GT'}[kind], f), 'C07', parts, enforce='AlgConRhs_' + f) for f in ('lb', 'ub', 'is_valid')]
+
+
+SOLCHK = 'include/mp/flat/sol_check.h'
+
+
+def h_checkvars():
+    """SolutionChecker::CheckVars: every variable that is checked (original, or any in raw mode) has its lower bound, its upper bound and - when
+    integer - its integrality passed to the violation counter, each measured against the right reference and tolerance:
+      lower: amount lb - x relative to lb;  upper: amount x - ub relative to ub;  both with the feasibility tolerances (absolute, relative);
+      integrality: amount |x - round(x)| with the integrality tolerance, which is absolute: the relative tolerance passed must not be able to
+      hide a violation (Violation::Check reports only when BOTH tolerances are exceeded: a positive relative tolerance hides violations at
+      large values, an infinite one hides all of them except at round(x) = 0).
+    The counter's own decision is C07.Violation.Check.  Witness variable g_w; the name argument carries the variable index."""
+    n = [0]
+
+    def bnd(m):
+        n[0] += 1
+        return 'CheckViol_k(%d, aux, ' % (n[0] - 1)
+    K = '(i >= 0 && i <= g_nv)'
+    done = '(g_w >= i)'
+    checked = '(g_orig[g_w] || !g_recomp)'
+    inv = ('%s && (%s ==> (g_seen[0] == %s && g_seen[1] == %s && g_seen[2] == (%s && g_isint[g_w]))) && (!%s ==> (!g_seen[0] && !g_seen[1] && !g_seen[2]))'
+           % (K, done, checked, checked, checked, done))
+    parts = [VIOL, '''
+int g_nv, g_w; double *g_x, *g_lb, *g_ub; _Bool *g_orig, *g_isint; _Bool g_recomp; double g_tol, g_rel, g_inttol;
+_Bool g_seen[3];
+#define VP_MPCD(x) x
+static int num_vars(void) { return g_nv; }
+/* no NaN in the point or the bounds (model invariant, assumed at each access) */
+static double chk_x(int i) { __CPROVER_assume(g_x[i] > -__builtin_inf() && g_x[i] < __builtin_inf()); return g_x[i]; }   /* a point has finite coordinates */
+static double lb(int i) { __CPROVER_assume(g_lb[i] == g_lb[i]); return g_lb[i]; }
+static double ub(int i) { __CPROVER_assume(g_ub[i] == g_ub[i]); return g_ub[i]; }
+static _Bool is_var_original(int i) { return g_orig[i]; }
+static _Bool is_var_integer(int i) { return g_isint[i]; }
+static _Bool chk_if_recomputed(void) { return g_recomp; }
+static double sol_feas_tol(void) { return g_tol; }
+static double sol_feas_tol_rel(void) { return g_rel; }
+static double sol_int_tol(void) { return g_inttol; }
+/* chk.VarViolBnds().at(aux).CheckViol(...) / chk.VarViolIntty().at(aux).CheckViol(...): the violation counter (decision: C07.Violation.Check).
+   k = 0 lower bound, 1 upper bound (order of the calls in the source), 2 integrality; nm = the variable index in place of its name */
+static void CheckViol_k(int k, _Bool aux, Violation v, double epsabs, double epsrel, int nm) {
+  __CPROVER_assert(nm >= 0 && nm < g_nv, "a variable of the model");
+  __CPROVER_assert(aux == !g_orig[nm], "auxiliary variables are counted apart from the original ones");
+  __CPROVER_assert(g_orig[nm] || !g_recomp, "auxiliary variables are not checked against recomputed values");
+  double x = g_x[nm];
+  if (k == 0) { __CPROVER_assert(v.valX_ == g_lb[nm], "a lower-bound violation is measured relative to the lower bound");
+                __CPROVER_assert((v.viol_ > 0.0) == (g_lb[nm] > x) && (v.viol_ < 0.0) == (g_lb[nm] < x), "the lower-bound violation is positive exactly when x is below the bound (lb - x)"); }
+  if (k == 1) { __CPROVER_assert(v.valX_ == g_ub[nm], "an upper-bound violation is measured relative to the upper bound");
+                __CPROVER_assert((v.viol_ > 0.0) == (x > g_ub[nm]) && (v.viol_ < 0.0) == (x < g_ub[nm]), "the upper-bound violation is positive exactly when x is above the bound (x - ub)"); }
+  if (k <= 1) __CPROVER_assert(epsabs == g_tol && epsrel == g_rel, "bounds are checked with the feasibility tolerances");
+  if (k == 2) { __CPROVER_assert(g_isint[nm], "integrality is checked for integer variables");
+                __CPROVER_assert(v.viol_ >= 0.0 && (v.viol_ > 0.0) == (x != v.valX_), "the integrality violation is positive exactly when x differs from the reference integer");
+                __CPROVER_assert(epsabs == g_inttol, "integrality is checked with the integrality tolerance");
+                __CPROVER_assert(epsrel <= 0.0, "the integrality tolerance is absolute: no relative tolerance may hide a violation that exceeds it"); }
+  if (nm == g_w) g_seen[k] = 1;
+}
+''',
+             Fn(SOLCHK, r'void CheckVars\(SolCheck& chk\)', 'void CheckVars(void)',
+                contract='__CPROVER_requires(g_nv >= 0 && g_nv <= 1000000 && g_w >= 0 && g_w < g_nv && !g_seen[0] && !g_seen[1] && !g_seen[2] && g_tol == g_tol && g_rel == g_rel && g_inttol == g_inttol) '
+                         '__CPROVER_requires(__CPROVER_is_fresh(g_x, (g_nv ? g_nv : 1) * sizeof(double)) && __CPROVER_is_fresh(g_lb, (g_nv ? g_nv : 1) * sizeof(double)) && '
+                         '__CPROVER_is_fresh(g_ub, (g_nv ? g_nv : 1) * sizeof(double)) && __CPROVER_is_fresh(g_orig, g_nv ? g_nv : 1) && __CPROVER_is_fresh(g_isint, g_nv ? g_nv : 1)) '
+                         '__CPROVER_ensures(g_seen[0] == %s && g_seen[1] == %s && g_seen[2] == (%s && g_isint[g_w])) __CPROVER_assigns(g_seen[0], g_seen[1], g_seen[2])' % (checked, checked, checked),
+                subst=[(r'MPCD\(\s*', 'VP_MPCD(', -1), (r'chk\.x\(i\)', 'chk_x(i)', 1), (r'chk\.if_recomputed\(\)', 'chk_if_recomputed()', 1),
+                       (r'chk\.VarViolBnds\(\)\.at\(aux\)\.CheckViol\(', bnd, 2), (r'chk\.VarViolIntty\(\)\.at\(aux\)\.CheckViol\(', 'CheckViol_k(2, aux, ', 1),
+                       (r'VP_MPCD\(\s*GetModel\(\)\s*\)\.var_name\(i\)', 'i', 3), (r'\bINFINITY\b', '__builtin_inf()', -1), (r'(CheckViol_k\(\d, aux, )\s*\{', r'\1(Violation){', 3)],
+                loops={0: '__CPROVER_assigns(i, g_seen[0], g_seen[1], g_seen[2]) __CPROVER_loop_invariant(%s) __CPROVER_decreases(i + 1)' % inv},
+                label='mp::SolutionChecker::CheckVars', nmatches=1), '''
+void harness(void) { vp_one = 1; g_nv = nondet_int(); g_w = nondet_int(); g_recomp = nondet_bool();
+  g_tol = nondet_double(); g_rel = nondet_double(); g_inttol = nondet_double();
+  CheckVars(); VP_REACH("normal return"); }
+''']
+    return Harness('C07.SolutionChecker.CheckVars', 'C07', parts, enforce='CheckVars', loop_contracts=True, expect_loop_obligations=1,
+                   stubs=['ViolSummary::CheckViol (call-site obligations; its decision is C07.Violation.Check)', 'model / option accessors (arbitrary values)'])
 
 
 def h_check():
